@@ -352,7 +352,8 @@ theorem C13_teardown_survives_destructor_exceptions (cfg : Cfg) (hgf : cfg.gcFir
   run_nocrash cfg hgf s G.init live_init
 
 /-- … and that is the order in /repo now (read from `Thread_Init_Run` by the translator on every run) -/
-theorem C13_teardown_order_current_source : CelloGen.Thr.teardownGcFirst = true := rfl
+theorem C13_teardown_order_current_source : CelloGen.Thr.teardownGcFirst = true := by
+  rfl
 
 /-- The order before commit 7de4bbc (exception record first) is refuted by a concrete schedule: a worker allocates one
     object whose destructor does try/throw/catch and returns — the teardown sweep finds no exception record. -/
@@ -447,7 +448,8 @@ theorem C13_join_edeadlk_ignored :
     `Exception_New`/`Exception_Del`, the registration in `alloc_by`/`del_by`, `start_in`/`stop_in`/`with`, the Mutex
     functions and its `Lock`/`Start` instances, `Thread_Join`, the class-cache macro — have, in /repo's current
     source, exactly the text the model was written against -/
-theorem C13_source_shape_as_modelled : CelloGen.Thr.shape = CelloGen.Thr.shapeModelled := rfl
+theorem C13_source_shape_as_modelled : CelloGen.Thr.shape = CelloGen.Thr.shapeModelled := by
+  rfl
 
 /-- the model's translation of pthread error codes is the one extracted from `Mutex_Lock`, `Mutex_Trylock`,
     `Mutex_Unlock`, `Thread_Join` and `Thread_Call` in the current source, for every error code -/
